@@ -9,16 +9,7 @@
 #define VG_DS_N 7
 #endif
 
-/* ASSUME: strstr(h, n) returns the first occurrence of the string n in the string h, or NULL (C standard). */
-char *strstr(const char *h, const char *n)
-{
-	size_t i, j;
-	for (i = 0; ; i++) {
-		for (j = 0; n[j] != '\0' && h[i + j] == n[j]; j++) { }
-		if (n[j] == '\0') return (char *) (h + i);
-		if (h[i] == '\0' || h[i + j] == '\0') { if (h[i] == '\0') return NULL; }
-	}
-}
+#include "vg_libc.h"
 
 #include "lib/lha_reader.c"
 
